@@ -35,7 +35,15 @@ out += ["", "### 12.3 Behaviour-preserving refactorings (`selftest/benign/`, run
         "twenty properties do not promise are deliberately changed - order of records and synonym lists, exception "
         "messages and more specific ValueError subclasses, number of duplicate summaries, file layout, tie-breaking among "
         "equally short URI prefixes, the delimiter of derived converters, HTTP response bodies, removal of the GitHub "
-        "special case of discover. All twenty quick checks are run "
+        "special case of discover. Third batch (restructureA..E): correct restructurings of the kind the seeded changes get "
+        "wrong - caches and indexes that are invalidated at the right places, unified twin code paths, streamed inputs. "
+        "Fourth batch (hygieneA..D): API hygiene - read-only views and properties, private copies of the caller's records, "
+        "slots and explicit copy protocols, stricter argument checks outside every quantifier, more logging. Fifth batch "
+        "(perfA..D, the counterpart of the thirteenth round of seeded changes): performance optimisations that are right - "
+        "a record index behind get_record, a candidate index behind add_record / chain, a lazily built trie, a bisect-based "
+        "longest-prefix index replacing the trie on the query path, linear duplicate scans, per-call memoisation of distinct "
+        "data-frame cells, streamed file rewrites, a prefix index in the mapping service, a non-strict constructor and a "
+        "direct trie lookup inside discover, a fast path in the resolver's re-split. All twenty quick checks are run "
         "against each; any exit code other than 0 is an alarm.", "",
         "| refactoring | repository tests | checks raising an alarm |", "|---|---|---|"]
 for r in bres:
